@@ -30,7 +30,8 @@ Theorem crop_after_extend : forall (m m' : pmode) (c c' : R) (cast' : bool) (x :
   (length x <= n_out)%nat ->
   offset_ok (length x) n_out off = true ->
   pad_legal m (length x) n_out off = true ->
-  exists fx, resize1 m Forward c true x n_out off = Ok fx /             resize1 m' Forward c' cast' fx (length x) off = Ok x.
+  exists fx, resize1 m Forward c true x n_out off = Ok fx /\
+             resize1 m' Forward c' cast' fx (length x) off = Ok x.
 Proof. exact crop_extend. Qed.
 Print Assumptions crop_after_extend.
 
